@@ -144,6 +144,8 @@ class SymEx:
                     return ("inf", -v[1])
                 if v[0] == "rat":
                     return ("rat", f"(-{v[1]})")
+            if isinstance(n.op, ast.UAdd) and v[0] in ("rat", "inf"):
+                return v
             if isinstance(n.op, ast.Not):
                 return ("bool", f"(!{self.tobool(v)})")
             raise TErr(f"unary {type(n.op).__name__} on {v[0]}")
@@ -667,25 +669,48 @@ def translate_all(ctx) -> str:
            subst={"alias:a.next": "p", "alias:b.prev": "p.next"})
     E.expr("splitCandidate", "split_ear_cut", nth(ast.If, 0, "is_valid_diagonal", attr="test"), "a.i:nat b.i:nat valid:bool",
            subst={"is_valid_diagonal(a, b)": "valid"})
+    # find_hole_bridge: the two early returns for a hole point that is a vertex of the outer ring (fix 6e5a41fe8) are part of
+    # the hand model (`nodeEq`); their shape is checked here
+    fhb = find_func(E.mod, "find_hole_bridge")
+    ifs = sorted((n for n in ast.walk(fhb) if isinstance(n, ast.If)), key=lambda n: (n.lineno, n.col_offset))
+    if [ast.unparse(n) for n in ifs[:2]][0] != "if hole == p:\n    return p" or not ast.unparse(ifs[1]).startswith("if hole == p.next:\n    return p.next"):
+        raise TErr("find_hole_bridge: vertex-coincidence returns changed: " + ast.unparse(ifs[0])[:60] + " / " + ast.unparse(ifs[1])[:60])
     # find_hole_bridge, first loop
-    E.expr("bridgeHit", "find_hole_bridge", nth(ast.If, 0, "hy", attr="test"), "hy " + pts("p", "p.next"),
+    E.expr("bridgeHit", "find_hole_bridge", nth(ast.If, 2, "hy", attr="test"), "hy " + pts("p", "p.next"),
            subst={"hole.y": "hy", "hole.x": "hx"})
-    E.expr("bridgeX", "find_hole_bridge", lambda fn: nth(ast.If, 0, "hy")(fn).body[0].value, "hy " + pts("p", "p.next"), "rat",
+    E.expr("bridgeX", "find_hole_bridge", lambda fn: nth(ast.If, 2, "hy")(fn).body[0].value, "hy " + pts("p", "p.next"), "rat",
            subst={"hole.y": "hy", "hole.x": "hx"})
-    E.expr("bridgeAccept", "find_hole_bridge", nth(ast.If, 1, "qx", attr="test"), "hx x qx",
+    E.expr("bridgeAccept", "find_hole_bridge", nth(ast.If, 3, "qx", attr="test"), "hx x qx",
            subst={"hole.y": "hy", "hole.x": "hx"}, extra_env={})
-    E.expr("bridgeAcceptFirst", "find_hole_bridge", nth(ast.If, 1, "qx", attr="test"), "hx x",
+    E.expr("bridgeAcceptFirst", "find_hole_bridge", nth(ast.If, 3, "qx", attr="test"), "hx x",
            subst={"hole.y": "hy", "hole.x": "hx"}, inf={"qx": -1})
-    E.expr("bridgePickP", "find_hole_bridge", lambda fn: nth(ast.If, 1, "qx")(fn).body[1].value.test, pts("p", "p.next"))
-    E.expr("bridgeTouch", "find_hole_bridge", nth(ast.If, 2, "x == hx", attr="test"), "x hx",
+    E.expr("bridgePickP", "find_hole_bridge", lambda fn: nth(ast.If, 3, "qx")(fn).body[1].value.test, pts("p", "p.next"))
+    E.expr("bridgeTouch", "find_hole_bridge", nth(ast.If, 4, "x == hx", attr="test"), "x hx",
            subst={"hole.x": "hx"})
+    # the hole point lies on a segment of the outer ring that the ray does not intersect (fix 13723478a and its generalisation):
+    # `elif touch is None and area(p, hole, p.next) == 0 and on_segment(p, hole, p.next): touch = <leftmost end point>`,
+    # used after the loop when no early return happened
+    def on_seg_test(fn):
+        t = nth(ast.If, 2, "hy")(fn).orelse[0].test
+        if not (isinstance(t, ast.BoolOp) and isinstance(t.op, ast.And) and ast.unparse(t.values[0]) == "touch is None"):
+            raise TErr("find_hole_bridge: `touch is None and ...` expected")
+        return ast.copy_location(ast.BoolOp(ast.And(), t.values[1:]), t)
+
+    E.expr("bridgeOnSegment", "find_hole_bridge", on_seg_test, pts("hole", "p", "p.next"))
+    touch_assign = nth(ast.If, 2, "hy")(fhb).orelse[0].body[0]
+    if ast.unparse(touch_assign) != "touch = p if p.x < p.next.x else p.next":
+        raise TErr("find_hole_bridge: assignment of the on-segment branch changed")
+    E.expr("bridgePickPH", "find_hole_bridge", lambda fn: nth(ast.If, 2, "hy")(fn).orelse[0].body[0].value.test, pts("p", "p.next"))
+    after = [ast.unparse(n) for n in fhb.body if isinstance(n, ast.If)]
+    if after[:3] != ["if hole == p:\n    return p", "if touch is not None:\n    return touch", "if m is None:\n    return None"]:
+        raise TErr("find_hole_bridge: top-level tests changed: " + repr(after[:3]))
     # second loop
     hb = {"hole.y": "hy", "hole.x": "hx", "m.x": "mx", "m.y": "my"}
-    E.expr("bridgeCand", "find_hole_bridge", nth(ast.If, 5, "point_in_triangle", attr="test"), "hx hy qx mx my " + pts("p"))
-    E.expr("bridgeTan", "find_hole_bridge", lambda fn: nth(ast.If, 5, "point_in_triangle")(fn).body[0].value, "hx hy " + pts("p"), "rat")
+    E.expr("bridgeCand", "find_hole_bridge", nth(ast.If, 9, "point_in_triangle", attr="test"), "hx hy qx mx my " + pts("p"))
+    E.expr("bridgeTan", "find_hole_bridge", lambda fn: nth(ast.If, 9, "point_in_triangle")(fn).body[0].value, "hx hy " + pts("p"), "rat")
     better = "tan tan_min " + pts("p.prev", "p", "p.next", "hole", "m.prev", "m", "m.next")
-    E.expr("bridgeBetter", "find_hole_bridge", nth(ast.If, 6, "locally_inside", attr="test"), better)
-    E.expr("bridgeBetterFirst", "find_hole_bridge", nth(ast.If, 6, "locally_inside", attr="test"),
+    E.expr("bridgeBetter", "find_hole_bridge", nth(ast.If, 10, "locally_inside", attr="test"), better)
+    E.expr("bridgeBetterFirst", "find_hole_bridge", nth(ast.If, 10, "locally_inside", attr="test"),
            better.replace("tan_min ", ""), inf={"tan_min": 1})
     E.expr("hashThreshold", "earcut", lambda fn: next(n for n in ast.walk(fn) if isinstance(n, ast.Compare) and "len(exterior) >" in ast.unparse(n)).comparators[0],
            "", "rat")
@@ -738,6 +763,8 @@ def translate_all(ctx) -> str:
     out.append(cs_kernels(C, win))
     if C.consts.get("TOLERANCE") is not None:
         raise TErr("clipping.TOLERANCE is expected to be imported from ezdxf.math")
+    out.append(concave_fallback_kernel(C))
+    out.append(gh_kernels(C))
 
     # ------------------------------------------------------------------ construct2d.py, _vector.py
     H = Unit(ctx, "src/ezdxf/math/construct2d.py", vec_class)
@@ -746,6 +773,23 @@ def translate_all(ctx) -> str:
            subst={"hull[k - 2]": "o", "hull[k - 1]": "a", "vertices[i]": "b", "k >= 2": ("bool", "true")})
     H.expr("hullPopUpper", "convex_hull_2d", nth(ast.While, 1, "cross(", attr="test"), pts("o", "a", "b"), "bool",
            subst={"hull[k - 2]": "o", "hull[k - 1]": "a", "vertices[i]": "b", "k >= t": ("bool", "true")})
+    # is_convex_polygon_2d: the determinant of a corner, the significance test, the sign; the loop itself is hand-modelled
+    # (Model.Polygon.isConvexPolygon), its statement structure is compared with the text the model was written against
+    icp = find_func(H.mod, "is_convex_polygon_2d")
+    icp_for = next(n for n in icp.body if isinstance(n, ast.For))
+    det_assign = next(n for n in icp_for.body if isinstance(n, ast.Assign) and ast.unparse(n.targets[0]) == "det")
+    sig_if = next(n for n in icp_for.body if isinstance(n, ast.If) and "det" in ast.unparse(n.test))
+    sign_assign = sig_if.body[0]
+    if not (isinstance(sign_assign, ast.Assign) and ast.unparse(sign_assign.targets[0]) == "current_sign"):
+        raise TErr("is_convex_polygon_2d: sign assignment expected")
+    H.expr("convexDet", "is_convex_polygon_2d", lambda fn: det_assign.value, pts("prev", "vertex", "prev_prev"), "rat")
+    H.expr("convexSignificant", "is_convex_polygon_2d", lambda fn: sig_if.test, "det epsilon", "bool")
+    H.expr("convexSign", "is_convex_polygon_2d", lambda fn: sign_assign.value, "det", "rat")
+    body_txt = "\n".join(ast.unparse(n) for n in icp.body if not (isinstance(n, ast.Expr) and isinstance(n.value, ast.Constant)))
+    for node, ph in ((det_assign.value, "<DET>"), (sig_if.test, "<SIG>"), (sign_assign.value, "<SIGN>")):
+        body_txt = body_txt.replace(ast.unparse(node), ph, 1)
+    if body_txt != CONVEX_TEMPLATE:
+        raise TErr("is_convex_polygon_2d: statement structure differs from the modelled one:\n" + body_txt)
     V = Unit(ctx, "src/ezdxf/math/_vector.py", vec_class)
     V.func("vecLt", "Vec2.__lt__", "self.x self.y x y", "bool", register=False)
     iscl = next(m for m in vec_class.body if isinstance(m, ast.FunctionDef) and m.name == "isclose")
@@ -755,6 +799,133 @@ def translate_all(ctx) -> str:
     out.append(f"def iscloseRelTol : Rat := {ratlit(kw['rel_tol'])}\ndef iscloseAbsTol : Rat := {ratlit(kw['abs_tol'])}\n")
     out.append("\nend EzdxfVerif.Gen.PolygonKernels\n")
     return "\n".join(out)
+
+
+GH_PHASE2 = """s_entry ^= is_inside_polygon(self.first.vtx, clip)
+for subject_vertex in self:
+    if subject_vertex.intersect:
+        subject_vertex.entry = s_entry
+        s_entry = not s_entry
+c_entry ^= is_inside_polygon(clip.first.vtx, self)
+for clipper_vertex in clip:
+    if clipper_vertex.intersect:
+        clipper_vertex.entry = c_entry
+        c_entry = not c_entry"""
+
+GH_PHASE3_STEP = """if current.entry:
+    while True:
+        current = current.next
+        clipped.append(current.vtx)
+        if current.intersect:
+            break
+else:
+    while True:
+        current = current.prev
+        clipped.append(current.vtx)
+        if current.intersect:
+            break"""
+
+
+def gh_kernels(C: Unit) -> str:
+    """Greiner-Hormann: the (s_entry, c_entry) arguments of the three operations; the statements of phase 2 (entry/exit marking)
+    and the walking rule of phase 3 are compared with the text Model.Polygon.ghMark / ghUsedGo were written against"""
+    ops = {}
+    for name in ("union", "intersection", "difference"):
+        fn = find_func(C.mod, "GHPolygon." + name)
+        ret = next(n for n in ast.walk(fn) if isinstance(n, ast.Return))
+        call = ret.value
+        if not (isinstance(call, ast.Call) and ast.unparse(call.func) == "self.clip" and len(call.args) == 3 and ast.unparse(call.args[0]) == "clip"
+                and all(isinstance(a, ast.Constant) and isinstance(a.value, bool) for a in call.args[1:])):
+            raise TErr(f"GHPolygon.{name}: `return self.clip(clip, <bool>, <bool>)` expected")
+        ops[name] = (call.args[1].value, call.args[2].value)
+    fn = find_func(C.mod, "GHPolygon.clip")
+    body = [n for n in fn.body if not (isinstance(n, ast.Expr) and isinstance(n.value, ast.Constant))]
+    # phase 1 = first For; phase 2 = the next four statements; phase 3 = the rest
+    i = next(k for k, n in enumerate(body) if isinstance(n, ast.For))
+    phase2 = "\n".join(ast.unparse(n) for n in body[i + 1: i + 5])
+    if phase2 != GH_PHASE2:
+        raise TErr("GHPolygon.clip: phase 2 (entry/exit marking) differs from the modelled statements:\n" + phase2)
+    step = next((n for n in ast.walk(fn) if isinstance(n, ast.If) and ast.unparse(n.test) == "current.entry"), None)
+    if step is None or ast.unparse(step) != GH_PHASE3_STEP:
+        raise TErr("GHPolygon.clip: the walking rule of phase 3 differs from the modelled one")
+    b = lambda v: "true" if v else "false"
+    return "\n/-- `(s_entry, c_entry)` passed to `GHPolygon.clip` by union / intersection / difference -/\n" + "".join(
+        f"def gh{k.capitalize()} : Bool × Bool := ({b(v[0])}, {b(v[1])})\n" for k, v in ops.items())
+
+
+def concave_fallback_kernel(C: Unit) -> str:
+    """ConcaveClippingPolygon2d.clip_polygon, the branch taken when Greiner-Hormann returns no part (after fix c773d3f04): the
+    decision "subject is outside" as a function of the point-in-polygon codes of the subject vertices (in vertex order) and of the
+    mid points of the subject edges"""
+    fn = find_func(C.mod, "ConcaveClippingPolygon2d.clip_polygon")
+    branch = next((n for n in fn.body if isinstance(n, ast.If) and ast.unparse(n.test) == "len(result) == 0"), None)
+    if branch is None:
+        raise TErr("ConcaveClippingPolygon2d.clip_polygon: `if len(result) == 0` expected")
+    stm = [n for n in branch.body if not isinstance(n, ast.Expr)]
+    PIP = "is_point_in_polygon_2d(%s, self._clipping_polygon, abs_tol=abs_tol)"
+    ops = {ast.Lt: "<", ast.LtE: "≤", ast.Gt: ">", ast.GtE: "≥", ast.Eq: "=", ast.NotEq: "≠"}
+
+    def cmp_of(e, left_txt):
+        """`<left_txt> OP const` -> Lean predicate text on the code `c`"""
+        if not (isinstance(e, ast.Compare) and len(e.ops) == 1 and type(e.ops[0]) in ops and ast.unparse(e.left) == left_txt):
+            raise TErr("concave fall-back: comparison of a point-in-polygon code expected: " + ast.unparse(e)[:80])
+        k = ast.literal_eval(e.comparators[0])
+        if not isinstance(k, int):
+            raise TErr("concave fall-back: integer constant expected")
+        return f"decide (c {ops[type(e.ops[0])]} ({k} : Int))"
+
+    def quant(e, iter_txt, elem_txt, lean_list):
+        """any/all over a generator, or a test of one element -> Lean Bool over `lean_list`"""
+        if isinstance(e, ast.Call) and isinstance(e.func, ast.Name) and e.func.id in ("any", "all") and len(e.args) == 1 \
+                and isinstance(e.args[0], ast.GeneratorExp):
+            g = e.args[0]
+            if len(g.generators) != 1 or ast.unparse(g.generators[0].iter) != iter_txt or g.generators[0].ifs:
+                raise TErr(f"concave fall-back: generator over `{iter_txt}` expected: " + ast.unparse(e)[:100])
+            var = ast.unparse(g.generators[0].target)
+            return f"{lean_list}.{e.func.id} (fun c => {cmp_of(g.elt, elem_txt(var))})"
+        if isinstance(e, ast.Compare):  # a test of one element only, e.g. locations[0] / pip(vertices[0])
+            import re
+            left = ast.unparse(e.left)
+            for pat in (r"locations\[(-?\d+)\]", re.escape(PIP).replace("%s", r"vertices\[(-?\d+)\]")):
+                m = re.fullmatch(pat, left)
+                if m and lean_list == "codes":
+                    k = int(m.group(1))
+                    pick = f"codes.getD {k} 1" if k >= 0 else f"codes.reverse.getD {-k - 1} 1"
+                    return f"(fun (c : Int) => {cmp_of(e, left)}) ({pick})"
+        raise TErr("concave fall-back: unsupported decision expression: " + ast.unparse(e)[:100])
+
+    # modelled shape (fix c773d3f04):
+    #   locations = [PIP(v) for v in vertices]
+    #   is_outside = <Q1 over locations>
+    #   if not is_outside and not any(locations): is_outside = <Q2 over the mid points of the edges>
+    #   if is_outside: return tuple()
+    #   return (vertices,)
+    # also accepted (older / simplified shapes):  is_outside = <Q over pip(v) for v in vertices>  |  if <Q>: return tuple()
+    txt = [ast.unparse(n) for n in stm]
+    if len(stm) == 5 and txt[0] == "locations = [" + PIP % "v" + " for v in vertices]" and isinstance(stm[1], ast.Assign) \
+            and txt[1].startswith("is_outside = ") and isinstance(stm[2], ast.If) \
+            and ast.unparse(stm[2].test) == "not is_outside and (not any(locations))" and len(stm[2].body) == 1 \
+            and ast.unparse(stm[2].body[0]).startswith("is_outside = ") and not stm[2].orelse:
+        q1 = quant(stm[1].value, "locations", lambda var: var, "codes")
+        q2 = quant(stm[2].body[0].value, "zip(vertices, vertices[1:] + vertices[:1])", lambda var: PIP % "a.lerp(b)", "mids")
+        if ast.unparse(stm[2].body[0].value.args[0].generators[0].target) != "(a, b)":
+            raise TErr("concave fall-back: `for a, b in zip(...)` expected")
+        body = f"let o := {q1}\n  if !o && !(codes.any (fun c => decide (c ≠ 0))) then {q2} else o"
+        iff, ret = stm[3], stm[4]
+    elif len(stm) == 3 and isinstance(stm[0], ast.Assign) and isinstance(stm[1], ast.If) and \
+            ast.unparse(stm[1].test) == ast.unparse(stm[0].targets[0]):
+        body = quant(stm[0].value, "vertices", lambda var: PIP % var, "codes")
+        iff, ret = stm[1], stm[2]
+    elif len(stm) == 2 and isinstance(stm[0], ast.If):
+        body = quant(stm[0].test, "vertices", lambda var: PIP % var, "codes")
+        iff, ret = stm[0], stm[1]
+    else:
+        raise TErr("concave fall-back: unexpected statement structure: " + " | ".join(t[:60] for t in txt))
+    if not isinstance(iff, ast.If) or ast.unparse(iff.body[-1]) != "return tuple()" or iff.orelse or ast.unparse(ret) != "return (vertices,)":
+        raise TErr("concave fall-back: returns changed")
+    return ("\n/-- `ConcaveClippingPolygon2d.clip_polygon` when Greiner-Hormann returns no part: `is_outside` as a function of the\n"
+            "codes `is_point_in_polygon_2d(v, clipping_polygon)` of the subject vertices and of the mid points of the subject edges -/\n"
+            f"def concaveFallbackOutside (codes mids : List Int) : Bool :=\n  {body}\n")
 
 
 def cs_kernels(C: Unit, win: str) -> str:
@@ -820,6 +991,31 @@ def cs_kernels(C: Unit, win: str) -> str:
     )
 
 
+CONVEX_TEMPLATE = """if len(polygon) < 3:
+    return False
+global_sign: int = 0
+current_sign: int = 0
+prev = polygon[-1]
+index = len(polygon) - 2
+while index > 0 and polygon[index].isclose(prev):
+    index -= 1
+prev_prev = polygon[index]
+for vertex in polygon:
+    if vertex.isclose(prev):
+        continue
+    det = <DET>
+    if <SIG>:
+        current_sign = <SIGN>
+        if not global_sign:
+            global_sign = current_sign
+        if global_sign != current_sign:
+            return False
+    elif strict:
+        return False
+    prev_prev = prev
+    prev = vertex
+return bool(global_sign)"""
+
 SOURCES = [
     "src/ezdxf/math/_vector.py",
     "src/ezdxf/math/_mapbox_earcut.py",
@@ -835,8 +1031,8 @@ HAND_MODELLED = {
                                          "is_ear", "get_leftmost", "split_polygon", "cure_local_intersections", "split_ear_cut",
                                          "find_hole_bridge", "middle_inside", "intersects_polygon", "remove_node", "insert_node"],
     "src/ezdxf/math/clipping.py": ["ConvexClippingPolygon2d.__init__", "ConvexClippingPolygon2d.clip_polygon", "ConvexClippingPolygon2d.clip_line",
-                                   "CohenSutherlandLineClipping2d.clip_line"],
-    "src/ezdxf/math/construct2d.py": ["convex_hull_2d"],
+                                   "CohenSutherlandLineClipping2d.clip_line", "ConcaveClippingPolygon2d.clip_polygon", "GHPolygon.clip"],
+    "src/ezdxf/math/construct2d.py": ["convex_hull_2d", "is_convex_polygon_2d"],
     "src/ezdxf/math/_construct.py": ["is_point_in_polygon_2d", "has_clockwise_orientation"],
 }
 
@@ -864,33 +1060,47 @@ def regenerate(ctx):
 RULE = (
     "correspondence: (X1) earcut triangle lists as index triples, Lean model vs. ezdxf.math._mapbox_earcut and vs. the compiled "
     "ezdxf.acc.mapbox_earcut on every simple polygon of the 4x4 integer grid with up to 6 (quick) / 7 (thorough) vertices (both "
-    "orientations), rotated start vertices, star-shaped and orthogonal polygons with holes, and degenerate / self-intersecting "
-    "point sequences with holes; a float/exact difference is accepted only if the same Python code run with Fractions agrees "
-    "with the model; (X2) exact-valued predicates on dyadic inputs: is_point_in_polygon_2d, has_clockwise_orientation (both "
-    "twins), CohenSutherland encode and accept/reject, convex_hull_2d; (X3) rational-valued results compared at 1e-9: "
-    "ConvexClippingPolygon2d.clip_polygon / clip_line, ClippingRect2d.clip_line, intersection_line_line_2d (both twins); cases in "
-    "which a computed point lies exactly on a clipping line are the stated decision band and are counted, not compared. "
-    "non-trivial = at least one triangle / a clipped or rejected result / a boundary or inside answer. oracle: exact Fraction "
-    "checks on the real code (see notes)."
+    "orientations), rotated start vertices, star-shaped and orthogonal polygons with holes, holes touching the exterior in one point "
+    "(every start vertex of the hole), and degenerate / self-intersecting point sequences with holes; a float/exact difference is "
+    "accepted only if the same Python code run with Fractions agrees with the model; (X1c) the public wrapper mapbox_earcut_2d vs. "
+    "the model of earcut; (X2) exact-valued predicates on dyadic inputs: is_point_in_polygon_2d, has_clockwise_orientation (both "
+    "twins), CohenSutherland encode and accept/reject, convex_hull_2d, is_convex_polygon_2d (every start vertex, open/closed, "
+    "repeated vertices, both modes); (X3) rational-valued results compared at 1e-9: ConvexClippingPolygon2d.clip_polygon / "
+    "clip_line, ClippingRect2d.clip_line, intersection_line_line_2d (both twins); cases in which a computed point lies exactly on "
+    "a clipping line are the stated decision band and are counted, not compared; (X4) ConcaveClippingPolygon2d.clip_polygon for "
+    "subjects without a proper crossing (Greiner-Hormann returns no part): nothing / whole subject; (X5) Greiner-Hormann union, "
+    "intersection, difference on polygons in general position: entry/exit marks of all nodes of both polygons and the set of "
+    "original vertices that appear in the result. non-trivial = at least one triangle / a clipped or rejected result / a boundary "
+    "or inside answer. oracle: exact Fraction checks on the real code (see notes)."
 )
 TRUSTED_BASE = [
     "the symbolic translator in harness/props/c19.py (Python/Cython kernels -> Lean over Rat); every kernel is also exercised by the correspondence streams",
-    "hand models of the loops in Model/Polygon.lean (earcut ring surgery, Sutherland-Hodgman, Cohen-Sutherland, monotone chain), tied by correspondence only",
+    "hand models of the loops in Model/Polygon.lean (earcut ring surgery, Sutherland-Hodgman, convex clip_line, Cohen-Sutherland, monotone chain, "
+    "is_convex_polygon_2d, is_point_in_polygon_2d, the concave fall-back, Greiner-Hormann phase 2/3 rule), tied by correspondence and, for "
+    "is_convex_polygon_2d / find_hole_bridge / GHPolygon.clip / the concave fall-back, by a comparison of the statement structure with the modelled text",
     "IEEE double arithmetic is exact on the small dyadic inputs used by the exact streams (sums/products), divisions are correctly rounded",
     "CPython list.sort is stable; set() of Vec2 deduplicates by coordinates",
 ]
 ASSUMPTIONS = [
     "earcut model: at most 80 exterior vertices (the z-order hashed path is covered by the oracle only)",
     "eliminate_hole: the case in which filter_points removes the bridge node AND one of its former neighbours is not modelled (driver answers 'detached', counted)",
-    "Greiner-Hormann, ConcaveClippingPolygon2d, InvertedClippingPolygon2d: oracle only",
+    "Greiner-Hormann: phase 1 (intersection search with its perturbation-free end point exclusion) and the polygon construction of phase 3 are oracle only; "
+    "modelled and proved: the entry/exit classification (phase 2) and which boundary pieces phase 3 walks; InvertedClippingPolygon2d and "
+    "ConcaveClippingPolygon2d.clip_line: oracle only",
+    "clipLineConvex_exact, cs_accept_exact, cs_reject_sound are statements in exact arithmetic (tolerance 0 / proper window); the float code is tied by X3 at 1e-9 outside the stated decision band",
+    "pip_agrees_exact identifies the answer with the parity of the exact winding number; that the winding number of a SIMPLE polygon is 0 or +-1 (odd = inside) is not proved",
 ]
 OPEN = [
-    "completion of earcut for every simple polygon (two-ears theorem) is not proved: earcut_conserves assumes the run is complete",
-    "non-overlap of the earcut triangles: oracle only (exact test)",
-    "cs_reject_sound_partial: proved for the reject test on the input end points only",
-    "cs_accept_inside / cs_accept_on_segment / cs_terminates_proper_window assume a proper window (x_min <= x_max, y_min <= y_max); cs_terminates (fuel 9) holds for every window",
-    "hull_upper_left_turns_partial: junction turn, persistence of the lower chain, closing turn and hull_contains_all are not proved",
-    "Sutherland-Hodgman: exactness of the clipped area (result = intersection) is oracle only; containment is proved",
+    "completion of earcut for every simple polygon (two-ears theorem) is not proved: earcut_conserves assumes the run is complete; proved for strictly convex rings of any size (earcut_completes_convex)",
+    "non-overlap of the earcut triangles for non-convex polygons: oracle only (exact test); proved: earcut_convex_no_overlap for strictly convex rings, and what the ear test "
+    "guarantees (isEar_iff, pointInTriangle_exact, isEar_bbox_redundant), not the geometric step 'no reflex vertex in the ear => the ear is disjoint from the rest of a simple polygon'",
+    "Sutherland-Hodgman: exactness of the clipped AREA (result = intersection as point sets) is oracle only; proved: result inside every clip half-plane, inside the "
+    "convex hull of the subject, subject outside one edge => empty, subject strictly inside => unchanged, one cut conserves the signed area (clipEdge_area_split, tolerance 0); clip_idempotent not proved (vertices on a clip edge are re-cut, "
+    "equal only up to the intersection tolerance)",
+    "ConvexClippingPolygon2d.clip_line: exactness proved for abs_tol = 0 only (with abs_tol > 0 an end point within the band is kept)",
+    "hull: strictness needs 'not all collinear' (hull_collinear states what is returned otherwise); that every extreme input point is a hull vertex follows from "
+    "hull_contains_all + hull_convex only with a separate geometric argument, not stated",
+    "Greiner-Hormann area law as a statement about areas: oracle only (gh_union_intersection_partition is the combinatorial part)",
 ]
 
 
@@ -1380,6 +1590,10 @@ def earcut_cases(ctx):
         if len(ext) <= 80:
             cases.append((kind, ext, holes))
     cases += degenerate_inputs(ctx, "degenerate", ctx.n(6000, 60000))
+    # a hole touching the exterior in one point (vertex on vertex / vertex on edge), every start vertex of the hole
+    for ext, hole, variants in touching_hole_cases(ctx, "x1-touching", ctx.n(150, 1500)):
+        for hv in variants:
+            cases.append(("touching-hole", ext, [hv]))
     # closed input (first vertex repeated), duplicates, collinear runs
     for poly in grid_simple_polygons(4, 4)[:: ctx.n(9, 2)]:
         p = list(poly)
@@ -1416,7 +1630,7 @@ def correspond(ctx):
                 return None
             exact = tri_text(run_earcut(PY.earcut, ext, holes, lambda p: FP(*p)))
             if model.rstrip() == ("ok " + exact).rstrip():
-                if kind.startswith("grid") or kind in ("star", "ortho", "closed", "dup"):
+                if kind.startswith("grid") or kind in ("star", "ortho", "closed", "dup", "touching-hole"):
                     return "diff:float run differs from the exact run of the same code on a valid input: " + tf
                 return "skip:float rounding decides (the code run with Fractions agrees with the model)"
             return "diff:" + tf + "   [exact run: " + exact + "]"
@@ -1424,6 +1638,30 @@ def correspond(ctx):
         lines.append(req)
         items.append((req, cmp, bool(tf)))
     custom_compare(ctx, "X1 earcut model vs code", lines, items)
+
+    # ---------------------------------------------------------------- X1c the public wrapper mapbox_earcut_2d = earcut on Vec2 lists
+    from ezdxf.math import triangulation as TRI
+
+    lines, items = [], []
+    wrapper_cases = [c for c in cases if c[0] in ("touching-hole", "star", "ortho")]
+    wrapper_cases = wrapper_cases[:: max(1, len(wrapper_cases) // ctx.n(1500, 15000))]
+    for kind, ext, holes in wrapper_cases:
+        req = f"tris|{pl(ext)}|{';'.join(pl(h) for h in holes)}"
+        res = TRI.mapbox_earcut_2d([Vec2(p) for p in ext], [[Vec2(p) for p in h] for h in holes])
+        impl = [tuple((v.x, v.y) for v in t) for t in res]
+        pts_all = list(ext) + [p for h in holes for p in h]
+
+        def cmp(model, impl=impl, pts_all=pts_all, kind=kind):
+            if model.startswith("detached"):
+                return f"skip:unmodelled in {kind}: bridge and a neighbour removed by filter_points"
+            if not model.startswith("ok"):
+                return "diff:" + repr(impl)[:200]
+            mt = [tuple((float(pts_all[int(i)][0]), float(pts_all[int(i)][1])) for i in t.split("-")) for t in model[2:].split()]
+            return None if mt == impl else "diff:" + repr(impl)[:300]
+
+        lines.append(req)
+        items.append((req, cmp, bool(impl)))
+    custom_compare(ctx, "X1c mapbox_earcut_2d (wrapper) vs model of earcut", lines, items)
 
     # ---------------------------------------------------------------- X2 exact predicates
     x2 = []
@@ -1493,6 +1731,15 @@ def correspond(ctx):
         except ValueError:
             a = "err ValueError"
         x2.append((req, a, a.startswith("ok")))
+    # is_convex_polygon_2d: every start vertex, open / closed, repeated vertices, both modes
+    from ezdxf.math.construct2d import is_convex_polygon_2d
+
+    ccases = convexity_cases(ctx, "x2-convex")
+    for q in ccases[:: max(1, len(ccases) // ctx.n(12000, 80000))]:
+        vs = [Vec2(p) for p in q]
+        for strict in (False, True):
+            got = is_convex_polygon_2d(vs, strict=strict)
+            x2.append((f"convex|{1 if strict else 0}|1/1000000|{pl(q)}", "1" if got else "0", got))
     ctx.correspond("X2 exact predicates", "C19", x2, build=DRIVER_DEPS)
 
     # ---------------------------------------------------------------- X3 rational valued results at 1e-9
@@ -1634,6 +1881,74 @@ def correspond(ctx):
         items.append((req, cmp, res is not None))
     custom_compare(ctx, "X3 rational valued results", lines, items)
 
+    # ---------------------------------------------------------------- X4 concave clipping polygon, the branch without Greiner-Hormann parts
+    from ezdxf.math.clipping import ConcaveClippingPolygon2d, clip_arbitrary_polygons
+    from ezdxf.math import BoundingBox2d
+
+    x4 = []
+    rng4 = ctx.rng("x4")
+    tries = 0
+    target = ctx.n(2500, 25000)
+    while len(x4) < target and tries < 30 * target:
+        tries += 1
+        poly = [(2 * x, 2 * y) for x, y in rng4.choice(grid_simple_polygons(4, rng4.choice([4, 5, 6, 6])))]
+        sh = rng4.choice(TOUCH_SHAPES)
+        ox, oy = rng4.randint(-1, 6), rng4.randint(-1, 6)
+        subj = [(ox + x, oy + y) for x, y in sh]
+        if rng4.random() < 0.5:
+            subj = subj[::-1]
+        r = rng4.randrange(len(subj))
+        subj = subj[r:] + subj[:r]
+        if rng4.random() < 0.15:
+            subj = subj + [subj[0]]
+        vp = [Vec2(p) for p in poly]
+        vsub = [Vec2(p) for p in subj]
+        if not BoundingBox2d(vp).has_intersection(BoundingBox2d(vsub)):
+            continue
+        if len(clip_arbitrary_polygons(list(vp), [v for v in vsub[: len(sh)]])) != 0:
+            continue
+        res = ConcaveClippingPolygon2d(vp).clip_polygon(vsub)
+        a = "none" if len(res) == 0 else "whole " + pl([(F(v.x), F(v.y)) for v in res[0]])
+        x4.append((f"cfb|{TOL}|{pl(poly)}|{pl(subj)}", a, len(res) != 0))
+    ctx.correspond("X4 concave clip_polygon without Greiner-Hormann parts", "C19", x4, build=DRIVER_DEPS)
+
+    # ---------------------------------------------------------------- X5 Greiner-Hormann: entry/exit marks and walked pieces
+    from ezdxf.math.clipping import GHPolygon, is_inside_polygon
+
+    x5 = []
+    rng5 = ctx.rng("x5")
+    done = tries = 0
+    target = ctx.n(500, 5000)
+    while done < target and tries < 20 * target:
+        tries += 1
+        P = star_polygon(rng5, rng5.choice([3, 4, 5, 7, 9]), 16)
+        Q = star_polygon(rng5, rng5.choice([3, 4, 5, 7, 9]), 16)
+        off = (F(rng5.randint(-40, 40), 4) + F(1, 8), F(rng5.randint(-40, 40), 4) + F(1, 16))
+        Q = [(F(x) + off[0], F(y) + off[1]) for x, y in Q]
+        P = [(F(x), F(y)) for x, y in P]
+        if rng5.random() < 0.5:
+            Q = Q[::-1]
+        if rng5.random() < 0.3:
+            P = P[::-1]
+        if not general_position(P, Q):
+            continue
+        if not any(seg_proper(P[i - 1], P[i], Q[j - 1], Q[j]) for i in range(len(P)) for j in range(len(Q))):
+            continue
+        done += 1
+        for s_entry, c_entry in ((False, False), (True, True), (False, True)):
+            sp = GHPolygon.from_vec2([Vec2(float(x), float(y)) for x, y in P])
+            cp = GHPolygon.from_vec2([Vec2(float(x), float(y)) for x, y in Q])
+            res = sp.clip(cp, s_entry, c_entry)
+            in_result = set((v.x, v.y) for r in res for v in r)
+            for poly, other, e in ((sp, cp, s_entry), (cp, sp, c_entry)):
+                nodes = list(poly)
+                bits = "".join("1" if nd.intersect else "0" for nd in nodes)
+                ins = is_inside_polygon(poly.first.vtx, other)
+                marks = "".join(("1" if nd.entry else "0") if nd.intersect else "-" for nd in nodes)
+                used = "".join("1" if (nd.vtx.x, nd.vtx.y) in in_result else "0" for nd in nodes if not nd.intersect)
+                x5.append((f"gh|{1 if e else 0}|{1 if ins else 0}|{bits}", marks + "|" + used, True))
+    ctx.correspond("X5 Greiner-Hormann entry/exit marks and walked pieces", "C19", x5, build=DRIVER_DEPS)
+
 
 # =====================================================================================================
 # part 3: oracle on the real code (exact Fraction arithmetic on the inputs, stated tolerance on float outputs)
@@ -1682,7 +1997,9 @@ def oracle_triangulation(ctx):
             ctx.count("O1 triangulation", (name, tuple(ext), tuple(map(tuple, holes))), len(tris) > 1)
             why = check_triangulation(ext, holes, tris, pts_all)
             if why:
-                ctx.fail(f"earcut/{kind}/{name}/{pl(ext)}|{';'.join(pl(h) for h in holes)}"[:300],
+                # inputs with a Steiner point (hole of a single vertex) have their own key class: known finding C19-F6
+                cls = "earcut-steiner" if any(len(h) == 1 for h in holes) else "earcut"
+                ctx.fail(f"{cls}/{kind}/{name}/{pl(ext)}|{';'.join(pl(h) for h in holes)}"[:300],
                          f"{name} earcut of {kind} polygon {ext} holes {holes}: {why}; triangles {tris}",
                          {"op": "earcut", "impl": name, "ext": [list(map(str, p)) for p in ext],
                           "holes": [[list(map(str, p)) for p in h] for h in holes]})
@@ -1690,6 +2007,8 @@ def oracle_triangulation(ctx):
     # corpus: the input on which the linked_list index off-by-one (fixed by 774525a2f) produced overlapping triangles
     run("ortho", [(18, 15), (12, 15), (6, 15), (0, 15), (0, 0), (24, 0), (24, 21), (18, 21)],
         [[(14, 8), (20, 11), (17, 14), (14, 11)], [(9, 6), (10, 6), (10, 5), (9, 5)]])
+    # corpus: known finding C19-F6 (Steiner point, found by the thorough tier with seed 2)
+    run("star", [(8, 9), (7, 11), (2, 4), (12, 6), (11, 10)], [[(9, 7), (10, 7), (10, 6), (9, 6)], [(6, 9), (7, 8), (6, 8)], [(5, 7)]])
     for n in range(3, ctx.n(6, 7) + 1):
         polys = grid_simple_polygons(4, n)
         step = 1 if n < 6 else ctx.n(3, 1)
@@ -1720,12 +2039,14 @@ def oracle_triangulation(ctx):
         ctx.count("O1 triangulation", ("api2d", tuple(ext)), True)
         why = check_triangulation(ext, holes, tris, list(ext) + [p for h in holes for p in h])
         if why:
-            ctx.fail(f"earcut/api2d/{pl(ext)}"[:300], f"mapbox_earcut_2d {ext} {holes}: {why}", {"op": "earcut2d", "ext": [list(map(str, p)) for p in ext], "holes": [[list(map(str, p)) for p in h] for h in holes]})
+            cls = "earcut-steiner" if any(len(h) == 1 for h in holes) else "earcut"
+            ctx.fail(f"{cls}/api2d/{pl(ext)}"[:300], f"mapbox_earcut_2d {ext} {holes}: {why}", {"op": "earcut2d", "ext": [list(map(str, p)) for p in ext], "holes": [[list(map(str, p)) for p in h] for h in holes]})
         res3 = list(TRI.mapbox_earcut_3d([Vec3(p[0], p[1], 5.0) for p in ext], [[Vec3(p[0], p[1], 5.0) for p in h] for h in holes]))
         a3 = sum(abs((t[1] - t[0]).cross(t[2] - t[0]).z) for t in res3)
         want = abs(area2(ext)) - sum(abs(area2(h)) for h in holes)
         if len(ext) > 3 and not close(a3, want, 1e-9):
-            ctx.fail(f"earcut/api3d/{pl(ext)}"[:300], f"mapbox_earcut_3d area {a3 / 2} != {want / 2}", {"op": "earcut3d", "ext": [list(map(str, p)) for p in ext]})
+            cls = "earcut-steiner" if any(len(h) == 1 for h in holes) else "earcut"
+            ctx.fail(f"{cls}/api3d/{pl(ext)}"[:300], f"mapbox_earcut_3d area {a3 / 2} != {want / 2}", {"op": "earcut3d", "ext": [list(map(str, p)) for p in ext]})
 
 
 def float_area2(vs):
@@ -2104,6 +2425,355 @@ def oracle_hull_predicates(ctx):
                     ctx.fail(f"ill/{name}/{pl(q)}|{virtual}", f"intersection_line_line_2d({q}, virtual={virtual}) = {got}, exact {want}", {"op": "ill", "q": [list(map(str, p)) for p in q], "virtual": virtual})
 
 
+# ------------------------------------------------------------------ session 3: convexity predicate, touching contacts
+def convex_exact(poly, strict):
+    """exact convexity of a vertex sequence (open or closed, coincident neighbours skipped): all non-zero corner
+    orientations agree and there is at least one; strict: no zero orientation"""
+    ring = [p for i, p in enumerate(poly) if i == 0 or p != poly[i - 1]]
+    if len(ring) > 1 and ring[0] == ring[-1]:
+        ring.pop()
+    if len(ring) < 3:
+        return False
+    s = [sgn(orient(ring[i - 2], ring[i - 1], ring[i])) for i in range(len(ring))]
+    nz = [v for v in s if v]
+    if not nz or (strict and len(nz) != len(s)):
+        return False
+    return all(v == nz[0] for v in nz)
+
+
+def inside_length_exact(poly, a, b):
+    """fraction of the segment ab that lies in the closed simple polygon (exact)"""
+    ts = {F(0), F(1)}
+    for i in range(len(poly)):
+        c, d = poly[i - 1], poly[i]
+        da, db = orient(c, d, a), orient(c, d, b)
+        if da != db and seg_touch(a, b, c, d):
+            ts.add(F(da) / F(da - db))
+        for q in (c, d):
+            if on_seg(a, b, q):
+                den = (b[0] - a[0]) if b[0] != a[0] else (b[1] - a[1])
+                ts.add(F((q[0] - a[0]) if b[0] != a[0] else (q[1] - a[1])) / F(den))
+    ts = sorted(ts)
+    inside = F(0)
+    for t0, t1 in zip(ts, ts[1:]):
+        m = (a[0] + (t0 + t1) / 2 * (b[0] - a[0]), a[1] + (t0 + t1) / 2 * (b[1] - a[1]))
+        if pip_exact(m, poly) >= 0:
+            inside += t1 - t0
+    return inside
+
+
+def convexity_cases(ctx, salt):
+    """vertex sequences for is_convex_polygon_2d: every start vertex, open and closed, of simple grid polygons (both
+    directions are in the enumeration), plus sequences with repeated vertices"""
+    rng = ctx.rng(salt)
+    out = []
+    for n in (3, 4, 5, 6):
+        polys = grid_simple_polygons(4, n)
+        if n >= 5:
+            polys = rng.sample(polys, ctx.n(1500, 12000))
+        for poly in polys:
+            poly = list(poly)
+            for r in range(n):
+                q = poly[r:] + poly[:r]
+                out.append(q)
+                out.append(q + [q[0]])
+            if rng.random() < 0.2:
+                k = rng.randrange(n)
+                out.append(poly[:k] + [poly[k]] + poly[k:])
+    out += [[], [(0, 0)], [(0, 0), (1, 1)], [(0, 0), (1, 0), (2, 0)], [(0, 0), (1, 0), (2, 0), (3, 0)], [(0, 0), (0, 0), (0, 0)],
+            [(0, 0), (2, 0), (2, 0), (2, 2), (0, 2), (0, 0)]]
+    return out
+
+
+def oracle_convexity(ctx):
+    """is_convex_polygon_2d against exact arithmetic (integer inputs: every corner determinant is 0 or at least 1, far from
+    the epsilon band), and its user find_best_clipping_shape: a concave clipping path must not get a convex clipper, the
+    chosen clipper must return exactly the inside part of a line"""
+    from ezdxf.math import Vec2
+    from ezdxf.math.construct2d import is_convex_polygon_2d
+    from ezdxf.tools.clipping_portal import find_best_clipping_shape, ConcaveClippingPolygon
+
+    rng = ctx.rng("convexity")
+    cases = convexity_cases(ctx, "convexity-cases")
+    for q in cases:
+        vs = [Vec2(p) for p in q]
+        for strict in (False, True):
+            got = is_convex_polygon_2d(vs, strict=strict)
+            want = convex_exact(q, strict)
+            ctx.count("O6 is_convex_polygon_2d vs exact", (tuple(q), strict), want)
+            if got != want:
+                ctx.fail(f"convex/{int(strict)}/{pl(q)}"[:300], f"is_convex_polygon_2d({q}, strict={strict}) = {got}, exact {want}",
+                         {"op": "convex", "poly": [list(p) for p in q], "strict": strict})
+    # second site: the clipping shape chosen for a clipping path
+    sample = [q for q in cases if len(q) >= 4 and len(set(q)) >= 4]
+    for q in rng.sample(sample, min(len(sample), ctx.n(1200, 12000))):
+        ring = q[:-1] if q[0] == q[-1] else q
+        if not is_simple(ring):
+            continue
+        scaled = [(2 * x, 2 * y) for x, y in q]
+        ring2 = [(F(2 * x), F(2 * y)) for x, y in ring]
+        shape = find_best_clipping_shape([Vec2(p) for p in scaled])
+        concave = not convex_exact(ring, False)
+        ctx.count("O6b find_best_clipping_shape", tuple(q), concave)
+        if concave and not isinstance(shape, ConcaveClippingPolygon):
+            ctx.fail(f"best-shape/class/{pl(q)}"[:300], f"find_best_clipping_shape({scaled}) = {type(shape).__name__} for a concave clipping path",
+                     {"op": "best_shape", "poly": [list(p) for p in scaled]})
+            continue
+        for _ in range(3):
+            a = (F(rng.randint(-8, 56), 8) + F(1, 16), F(rng.randint(-8, 56), 8) + F(1, 32))
+            b = (F(rng.randint(-8, 56), 8) + F(1, 64), F(rng.randint(-8, 56), 8) + F(1, 128))
+            if any(on_seg(a, b, v) for v in ring2) or pip_exact(a, ring2) == 0 or pip_exact(b, ring2) == 0:
+                continue
+            want = inside_length_exact(ring2, a, b)
+            L = math.hypot(float(b[0] - a[0]), float(b[1] - a[1]))
+            res = shape.clip_line(Vec2(float(a[0]), float(a[1])), Vec2(float(b[0]), float(b[1])))
+            got = sum(s.distance(e) for s, e in res)
+            ctx.count("O6b find_best_clipping_shape", (tuple(q), a, b), 0 < want < 1)
+            if abs(got - float(want) * L) > 1e-8 * (1 + L):
+                ctx.fail(f"best-shape/line/{pl(scaled)}|{ps(a)}|{ps(b)}"[:300],
+                         f"find_best_clipping_shape({scaled}) -> {type(shape).__name__}.clip_line({a}, {b}): inside length {got} != exact {float(want) * L}",
+                         {"op": "best_shape", "poly": [list(p) for p in scaled], "a": list(map(str, a)), "b": list(map(str, b))})
+
+
+TOUCH_SHAPES = [[(0, 0), (1, 0), (1, 1), (0, 1)], [(0, 0), (2, 0), (2, 1), (0, 1)], [(0, 0), (1, 0), (0, 1)], [(0, 0), (2, 0), (1, 1)],
+                [(0, 0), (1, 1), (0, 2)], [(0, 0), (2, 0), (2, 2), (0, 2)], [(0, 0), (1, 0), (1, 2), (0, 2)], [(0, 0), (2, 1), (0, 1)],
+                [(1, 0), (2, 1), (1, 2), (0, 1)]]
+
+
+def oracle_concave_touching(ctx):
+    """ConcaveClippingPolygon2d / InvertedClippingPolygon2d.clip_polygon for subjects that touch the clipping path without
+    crossing it (vertex on edge, vertex on vertex, shared edge parts): Greiner-Hormann reports no intersection points, the
+    answer is decided by the point-in-polygon tests of the fall-back branch.  Every start vertex, both directions."""
+    from ezdxf.math import Vec2
+    from ezdxf.math.clipping import ConcaveClippingPolygon2d
+
+    rng = ctx.rng("concave-touch")
+    V = lambda p: Vec2(float(p[0]), float(p[1]))
+    done = 0
+    target = ctx.n(700, 7000)
+    tries = 0
+    while done < target and tries < 40 * target:
+        tries += 1
+        n = rng.choice([5, 6, 6])
+        poly = [(2 * x, 2 * y) for x, y in rng.choice(grid_simple_polygons(4, n))]
+        if convex_exact(poly, False):
+            continue
+        sh = rng.choice(TOUCH_SHAPES)
+        ox, oy = rng.randint(-1, 6), rng.randint(-1, 6)
+        subj = [(ox + x, oy + y) for x, y in sh]
+        if any(seg_proper(subj[i - 1], subj[i], poly[j - 1], poly[j]) for i in range(len(subj)) for j in range(len(poly))):
+            continue
+        if not any(seg_touch(subj[i - 1], subj[i], poly[j - 1], poly[j]) for i in range(len(subj)) for j in range(len(poly))):
+            if rng.random() < 0.9:
+                continue
+        want = inter_area2(subj, poly)
+        codes = [pip_exact(p, poly) for p in subj]
+        if want == 0:
+            cls = "outside-all-on-boundary" if all(c == 0 for c in codes) else "outside"
+        elif want == abs(area2(subj)):
+            cls = "inside"
+        else:
+            cls = "partial"  # the boundaries cross in vertices only
+        done += 1
+        clipper = ConcaveClippingPolygon2d([V(p) for p in poly])
+        variants = []
+        for d in (subj, subj[::-1]):
+            for r in range(len(d)):
+                variants.append(d[r:] + d[:r])
+        for sv in variants:
+            ctx.count("O7 concave clip_polygon, touching subjects", (tuple(poly), tuple(sv)), want != 0)
+            ctx.hist("O7 concave clip_polygon, touching subjects", cls)
+            try:
+                res = clipper.clip_polygon([V(p) for p in sv])
+            except Exception as e:  # noqa
+                ctx.fail(f"concave-polygon/raise/{type(e).__name__}/{pl(poly)}|{pl(sv)}"[:300], f"ConcaveClippingPolygon2d.clip_polygon raised {type(e).__name__}: {e}",
+                         {"op": "concave_polygon", "q": [list(map(str, p)) for p in poly], "p": [list(map(str, p)) for p in sv]})
+                break
+            got = sum(abs(float_area2(list(r))) for r in res)
+            if abs(got - float(want)) > 1e-9 * (1 + float(abs(area2(subj)))):
+                ctx.fail(f"concave-polygon/touching/{cls}/{pl(poly)}|{pl(sv)}"[:300],
+                         f"ConcaveClippingPolygon2d({poly}).clip_polygon({sv}) (touching, no proper crossing; {cls}): area {got / 2} != exact {float(want) / 2}",
+                         {"op": "concave_polygon", "q": [list(map(str, p)) for p in poly], "p": [list(map(str, p)) for p in sv]})
+
+
+def touching_holes(rng, ext, tries):
+    """holes (triangles / quadrilaterals, integer vertices) with exactly one vertex t on the boundary of ext (an exterior
+    vertex or the midpoint of an exterior edge), everything else strictly inside; t is the first vertex"""
+    n = len(ext)
+    xs = [p[0] for p in ext]
+    ys = [p[1] for p in ext]
+    inner = [(x, y) for x in range(min(xs), max(xs) + 1) for y in range(min(ys), max(ys) + 1) if pip_exact((x, y), ext) == 1]
+    out = []
+    if len(inner) < 2:
+        return out
+    cands = list(ext) + [((ext[i - 1][0] + ext[i][0]) // 2, (ext[i - 1][1] + ext[i][1]) // 2) for i in range(n)
+                         if (ext[i - 1][0] + ext[i][0]) % 2 == 0 and (ext[i - 1][1] + ext[i][1]) % 2 == 0]
+    ext2 = [(2 * x, 2 * y) for x, y in ext]
+
+    def seg_ok(t, a):  # the half open segment (t, a] lies strictly inside ext
+        for j in range(n):
+            c, d = ext[j - 1], ext[j]
+            if seg_proper(t, a, c, d) or (c != t and on_seg(t, a, c)) or (d != t and on_seg(t, a, d)) or on_seg(c, d, a):
+                return False
+        return pip_exact((t[0] + a[0], t[1] + a[1]), ext2) == 1
+
+    for _ in range(tries):
+        t = rng.choice(cands)
+        hole = [t] + rng.sample(inner, min(rng.choice([2, 2, 3]), len(inner)))
+        if not is_simple(hole) or area2(hole) == 0:
+            continue
+        if not (seg_ok(t, hole[1]) and seg_ok(t, hole[-1])):
+            continue
+        if any(seg_touch(hole[i], hole[i + 1], ext[j - 1], ext[j]) for i in range(1, len(hole) - 1) for j in range(n)):
+            continue
+        if any(p != t and pip_exact(p, hole) >= 0 for p in ext):
+            continue
+        out.append(hole)
+    return out
+
+
+def touching_hole_cases(ctx, salt, count):
+    """(exterior, hole variants): a hole touching the exterior in one point, every start vertex, both directions, open/closed"""
+    rng = ctx.rng(salt)
+    out = []
+    # corpus: the inputs of the three find_hole_bridge defects fixed by 6e5a41fe8, 13723478a, 0f325b9d9
+    for ext, hole in (([(0, 0), (4, 12), (12, 12), (8, 4), (4, 4)], [(8, 4), (10, 11), (8, 8)]),
+                      ([(8, 4), (12, 4), (12, 8), (0, 0)], [(10, 4), (10, 6), (11, 6), (11, 5)]),
+                      ([(0, 0), (4, 4), (12, 8), (12, 12), (8, 12)], [(8, 6), (8, 7), (9, 9)])):
+        variants = []
+        for d in (hole, hole[::-1]):
+            for r in range(len(d)):
+                variants.append(d[r:] + d[:r])
+        out.append((ext, hole, variants))
+    tries = 0
+    while len(out) < count and tries < 20 * count:
+        tries += 1
+        n = rng.choice([4, 5, 6])
+        ext = [(4 * x, 4 * y) for x, y in rng.choice(grid_simple_polygons(4, n))]
+        if rng.random() < 0.3:
+            r = rng.randrange(n)
+            ext = ext[r:] + ext[:r]
+        for hole in touching_holes(rng, ext, 6)[:2]:
+            variants = []
+            for d in (hole, hole[::-1]):
+                for r in range(len(d)):
+                    v = d[r:] + d[:r]
+                    variants.append(v)
+                    if r == 0:
+                        variants.append(v + [v[0]])
+            out.append((ext, hole, variants))
+    return out
+
+
+def oracle_touching_holes(ctx):
+    """triangulation of polygons whose hole touches the exterior in one point (hole vertex on an exterior edge or on an
+    exterior vertex), through the public entry point mapbox_earcut_2d and through both earcut implementations"""
+    PY, CY, _, _ = impls()
+    from ezdxf.math import Vec2
+    from ezdxf.math import triangulation as TRI
+
+    mods = [("python", PY.earcut)] + ([("cython", CY.earcut)] if CY is not None else [])
+    for ext, hole, variants in touching_hole_cases(ctx, "touching-holes", ctx.n(250, 2500)):
+        at_vertex = hole[0] in ext
+        for hv in variants:
+            ring = hv[:-1] if hv[0] == hv[-1] else hv
+            pts_all = list(ext) + list(hv)
+            core_ok = True
+            for name, fn in mods:
+                tris = run_earcut(fn, ext, [hv], lambda p: Vec2(p))
+                ctx.count("O8 holes touching the exterior", (name, tuple(ext), tuple(hv)), True)
+                why = check_triangulation(ext, [ring], tris, pts_all)
+                if why:
+                    core_ok = False
+                    ctx.fail(f"earcut/touching-hole/{'vertex' if at_vertex else 'edge'}/{name}/{pl(ext)}|{pl(hv)}"[:300],
+                             f"{name} earcut of {ext} with hole {hv} touching the exterior in {hole[0]}: {why}; triangles {tris}",
+                             {"op": "earcut", "impl": name, "ext": [list(map(str, p)) for p in ext], "holes": [[list(map(str, p)) for p in hv]]})
+            res = TRI.mapbox_earcut_2d([Vec2(p) for p in ext], [[Vec2(p) for p in hv]])
+            index = {}
+            for k, p in enumerate(pts_all):
+                index.setdefault((float(p[0]), float(p[1])), k)
+            tris = [tuple(index.get((v.x, v.y), -1) for v in t) for t in res]
+            ctx.count("O8 holes touching the exterior", ("api2d", tuple(ext), tuple(hv)), True)
+            why = check_triangulation(ext, [ring], tris, pts_all)
+            if why and core_ok:
+                ctx.fail(f"earcut/api2d-touching/{pl(ext)}|{pl(hv)}"[:300],
+                         f"mapbox_earcut_2d({ext}, [{hv}]) (hole touches the exterior in {hole[0]}): {why}; earcut() itself is right on this input",
+                         {"op": "earcut2d", "ext": [list(map(str, p)) for p in ext], "holes": [[list(map(str, p)) for p in hv]]})
+
+
+def segment_inside_fraction(a, b, polys, pred):
+    """fraction of the segment ab whose points satisfy pred (exact); the status can only change where ab meets an edge of polys"""
+    ts = {F(0), F(1)}
+    for poly in polys:
+        for i in range(len(poly)):
+            c, d = poly[i - 1], poly[i]
+            da, db = orient(c, d, a), orient(c, d, b)
+            if da != db and seg_touch(a, b, c, d):
+                ts.add(F(da) / F(da - db))
+            for q in (c, d):
+                if on_seg(a, b, q):
+                    den = (b[0] - a[0]) if b[0] != a[0] else (b[1] - a[1])
+                    ts.add(F((q[0] - a[0]) if b[0] != a[0] else (q[1] - a[1])) / F(den))
+    ts = sorted(ts)
+    inside = F(0)
+    for t0, t1 in zip(ts, ts[1:]):
+        m = (a[0] + (t0 + t1) / 2 * (b[0] - a[0]), a[1] + (t0 + t1) / 2 * (b[1] - a[1]))
+        if pred(m):
+            inside += t1 - t0
+    return inside
+
+
+def oracle_polylines(ctx):
+    """clip_polyline of the convex, rectangular, concave and inverted clipping shapes: the total length of the returned parts is the
+    exact length of the polyline inside the shape (general position and integer grid positions with touching / collinear / through-vertex
+    contacts), every part is a chain of consecutive points"""
+    from ezdxf.math import Vec2, BoundingBox2d
+    from ezdxf.math.clipping import ConvexClippingPolygon2d, ClippingRect2d, ConcaveClippingPolygon2d, InvertedClippingPolygon2d
+
+    rng = ctx.rng("polylines")
+    V = lambda p: Vec2(float(p[0]), float(p[1]))
+    ob = [(F(-2), F(-2)), (F(8), F(-2)), (F(8), F(8)), (F(-2), F(8))]
+    for _ in range(ctx.n(700, 7000)):
+        poly = [(F(2 * x), F(2 * y)) for x, y in rng.choice(grid_simple_polygons(4, rng.choice([4, 5, 6])))]
+        general = rng.random() < 0.5
+        m = rng.randint(2, 5)
+        if general:
+            line = [(F(rng.randint(-8, 56), 8) + F(1, 2 ** (4 + j)), F(rng.randint(-8, 56), 8) + F(1, 2 ** (10 + j))) for j in range(m)]
+        else:
+            line = [(F(rng.randint(-1, 7)), F(rng.randint(-1, 7))) for _ in range(m)]
+        line = [p for i, p in enumerate(line) if i == 0 or p != line[i - 1]]
+        if len(line) < 2:
+            continue
+        hull = hull_exact(poly)
+        lo = (min(p[0] for p in poly), min(p[1] for p in poly))
+        hi = (max(p[0] for p in poly), max(p[1] for p in poly))
+        rect = [lo, (hi[0], lo[1]), hi, (lo[0], hi[1])]
+        shapes = [
+            ("ConcaveClippingPolygon2d", ConcaveClippingPolygon2d([V(p) for p in poly]), [poly], lambda q: pip_exact(q, poly) >= 0),
+            ("ConvexClippingPolygon2d", ConvexClippingPolygon2d([V(p) for p in hull]), [hull], lambda q: pip_exact(q, hull) >= 0),
+            ("ClippingRect2d", ClippingRect2d(V(lo), V(hi)), [rect], lambda q: lo[0] <= q[0] <= hi[0] and lo[1] <= q[1] <= hi[1]),
+            ("InvertedClippingPolygon2d", InvertedClippingPolygon2d([V(p) for p in poly], BoundingBox2d([V(ob[0]), V(ob[2])])), [poly, ob],
+             lambda q: -2 <= q[0] <= 8 and -2 <= q[1] <= 8 and pip_exact(q, poly) <= 0),
+        ]
+        for name, clipper, polys, pred in shapes:
+            want = 0.0
+            for a, b in zip(line, line[1:]):
+                want += float(segment_inside_fraction(a, b, polys, pred)) * math.hypot(float(b[0] - a[0]), float(b[1] - a[1]))
+            key = f"clip-polyline/{name}/{'general' if general else 'grid'}/{pl(poly)}|{pl(line)}"[:300]
+            rep = {"op": "clip_polyline", "cls": name, "poly": [list(map(str, p)) for p in poly], "line": [list(map(str, p)) for p in line]}
+            try:
+                with watchdog(2.0):
+                    parts = clipper.clip_polyline([V(p) for p in line])
+            except Hang:
+                ctx.fail("hang/" + key, f"{name}.clip_polyline does not return", rep)
+                continue
+            ctx.count("O9 clip_polyline", (name, tuple(poly), tuple(line)), 0 < want)
+            got = sum(p0.distance(p1) for part in parts for p0, p1 in zip(part, part[1:]))
+            if abs(got - want) > 1e-8 * (1 + want):
+                ctx.fail(key, f"{name}({poly}).clip_polyline({line}): length of the returned parts {got} != exact inside length {want}", rep)
+
+
+
 def oracle(ctx):
     ctx.note("oracle O1: triangles use input vertices only, are counter-clockwise, exact area sum = polygon area minus holes, "
              "pairwise exact non-overlap (separating axis), centroid inside; both implementations; > 80 vertices for the hashed path")
@@ -2112,7 +2782,13 @@ def oracle(ctx):
              "Cohen-Sutherland must return (0.25 s watchdog); concave clip_line = exact inside length")
     ctx.note("oracle O3: Greiner-Hormann on polygons in general position with at least one proper crossing: area(A&B) exact, "
              "area(A)+area(B) = area(A|B)+area(A&B), area(A-B) = area(A)-area(A&B), tolerance 1e-9 relative")
-    for part in (oracle_triangulation, oracle_clipping, oracle_greiner_hormann, oracle_hull_predicates):
+    ctx.note("oracle O6-O8 (session 3): is_convex_polygon_2d vs exact arithmetic for every start vertex / open / closed / repeated vertices, "
+             "find_best_clipping_shape (class and clipped line length); concave clip_polygon for subjects touching the clipping path "
+             "without crossing it, every start vertex; triangulation with a hole touching the exterior, every start vertex, via "
+             "mapbox_earcut_2d and both earcut implementations; O9: clip_polyline of the convex, rectangular, concave and inverted clipping shapes: "
+             "exact inside length, general position and grid positions")
+    for part in (oracle_triangulation, oracle_clipping, oracle_greiner_hormann, oracle_hull_predicates, oracle_convexity,
+                 oracle_concave_touching, oracle_touching_holes, oracle_polylines):
         try:
             part(ctx)
         except Exception as e:  # noqa: an exception escaping from the implementation is a finding of its own
@@ -2152,6 +2828,35 @@ def replay(ctx, rep):
                         CohenSutherlandLineClipping2d(Vec2(lo), Vec2(hi)).clip_line(Vec2(a), Vec2(b))
                 except Hang:
                     bad.append(f"{f['key'][:80]}: does not return")
+            elif r["op"] == "convex":
+                from ezdxf.math.construct2d import is_convex_polygon_2d
+
+                q = [tuple(p) for p in r["poly"]]
+                if is_convex_polygon_2d([Vec2(p) for p in q], strict=r["strict"]) != convex_exact(q, r["strict"]):
+                    bad.append(f"{f['key'][:80]}: differs from exact convexity")
+            elif r["op"] == "earcut2d":
+                from ezdxf.math import triangulation as TRI
+
+                ext = [(F(a), F(b)) for a, b in r["ext"]]
+                holes = [[(F(a), F(b)) for a, b in h] for h in r["holes"]]
+                res = TRI.mapbox_earcut_2d([Vec2(float(x), float(y)) for x, y in ext], [[Vec2(float(x), float(y)) for x, y in h] for h in holes])
+                rings = [h[:-1] if len(h) > 1 and h[0] == h[-1] else h for h in holes]
+                pts_all = ext + [p for h in holes for p in h]
+                index = {}
+                for k, p in enumerate(pts_all):
+                    index.setdefault((float(p[0]), float(p[1])), k)
+                why = check_triangulation(ext, rings, [tuple(index.get((v.x, v.y), -1) for v in t) for t in res], pts_all)
+                if why:
+                    bad.append(f"{f['key'][:80]}: {why}")
+            elif r["op"] == "concave_polygon":
+                from ezdxf.math.clipping import ConcaveClippingPolygon2d
+
+                Q = [(F(a), F(b)) for a, b in r["q"]]
+                P = [(F(a), F(b)) for a, b in r["p"]]
+                res = ConcaveClippingPolygon2d([Vec2(float(x), float(y)) for x, y in Q]).clip_polygon([Vec2(float(x), float(y)) for x, y in P])
+                got = sum(abs(float_area2(list(x))) for x in res)
+                if abs(got - float(inter_area2(P, Q))) > 1e-9 * (1 + float(abs(area2(P)))):
+                    bad.append(f"{f['key'][:80]}: area {got / 2} != exact {float(inter_area2(P, Q)) / 2}")
             else:
                 bad.append(f"{f['key'][:80]}: replay of op {r['op']} = rerun ./check C19 with the recorded seed")
         except Exception as e:  # noqa
